@@ -77,7 +77,7 @@ func init() {
 			"parts merged along a random binary tree / left-deep / right-deep order by MergeWith or DecodeAndMergeWith(Encode(part)); oracle = bitwise equality of the full observation (bins, zero weight, count, extremes, quantile grid) with the single sketch, argument snapshot unchanged by each merge, empty merge is a no-op. " +
 			"Non-trivial = >=2 non-empty parts of different store kinds and >=1 zero value; distinct = hash of (mapping, values, partition, tree).",
 		Cases:     core.Scale(60000, 1500000),
-		Mandatory: []string{"oracle.merge_equalities", "oracle.argument_unchanged", "merge.empty_argument", "merge.via_decode", "merge.cross_kind"},
+		Mandatory: []string{"oracle.merge_equalities", "oracle.argument_unchanged", "merge.empty_argument", "merge.via_decode", "merge.cross_kind", "part.cleared_before_use", "part.cleared_before_use.other_range"},
 		Assumptions: []string{
 			"unit weights: all sums exact, so bitwise equality is legitimate",
 		},
@@ -423,8 +423,21 @@ func runC02(c *core.Ctx) {
 		parts[i] = &part{s: mon.NewSketch(exact, pm, sp), spec: sp}
 		// some parts are used and cleared before receiving their share
 		if r.P(0.15) {
+			// values of the input, or values up to 2000 bins beyond it on either side (nothing of that range may survive)
+			f := 1.0
+			if r.Bool() {
+				f = math.Exp(float64(r.Range(50, 2000)) * m.LnG)
+				if r.Bool() {
+					f = 1 / f
+				}
+				c.Count("part.cleared_before_use.other_range", 1)
+			}
 			for j := 0; j < r.Range(1, 20) && j < len(vs.vals); j++ {
-				parts[i].s.I().Add(vs.vals[r.Intn(len(vs.vals))])
+				v := vs.vals[r.Intn(len(vs.vals))]
+				if a := math.Abs(v * f); a > m.Min*4 && a < m.Max/4 {
+					v *= f
+				}
+				parts[i].s.I().Add(v)
 			}
 			parts[i].s.I().Clear()
 			c.Count("part.cleared_before_use", 1)
